@@ -17,7 +17,7 @@ META = {
 }
 
 ALGS = {'batch1': dict(kind='batch', parts=1, min=1), 'batch2': dict(kind='batch', parts=2, min=1), 'queue': dict(kind='queue'),
-        'reserve1': dict(kind='reserve_only', parts=1, min=1), 'reserve2': dict(kind='reserve_only', parts=2, min=1)}
+        'batch3': dict(kind='batch', parts=3, min=1), 'reserve1': dict(kind='reserve_only', parts=1, min=1), 'reserve2': dict(kind='reserve_only', parts=2, min=1)}
 
 
 def base_scenario(nobs=2):
@@ -134,7 +134,22 @@ def prof_static(v):
     return sc
 
 
-PROFILES = {'two': prof_two, 'three': prof_three, 'delay': prof_delay, 'adv': prof_adv, 'static': prof_static}
+def prof_singles(v):
+    """(s2, s3, da, db, dc, g3, d3, mi): three observations, each with its own one-task workflow of length da / db / dc"""
+    s2, s3, da, db, dc, g3, d3, mi = v
+    sc = base_scenario(3)
+    sc['machines'] = PIN.get('machines', [10, 10, 20])
+    sc['alg'] = ALGS.get(PIN.get('alg', 'batch3'), dict(kind='queue'))
+    sc['max_ingest'] = mi
+    sc['obs'][0].update(start=0, dur=1, ingest=1)
+    sc['obs'][1].update(start=s2, dur=1, ingest=1)
+    sc['obs'][2].update(start=s3, dur=d3, ingest=g3)
+    sc['graphs'] = [dict(n=1, edges=[], durs=[da]), dict(n=1, edges=[], durs=[db]), dict(n=1, edges=[], durs=[dc])]
+    sc['delays'] = PIN.get('delays', [])
+    return sc
+
+
+PROFILES = {'singles': prof_singles, 'two': prof_two, 'three': prof_three, 'delay': prof_delay, 'adv': prof_adv, 'static': prof_static}
 
 
 def _grid_run(profile, v, props):
